@@ -365,7 +365,7 @@ def h_state_active_dec(eng):
             seen.append(vars_)
             if outcome == "raises":
                 raise exc("UserException", "bad")
-            return outcome == "true"
+            return 1 if outcome == "true" else 0     # truth value, not necessarily a bool
         return Coro(th, "expr.eval")
     dec = Rec(cls=cls, fields={"args": ["expr"], "kwargs": {}, "dm": dm, "_ast_expression": Rec(fields={"eval": ev}, name="expr"), "var_names": names}, name="state_active")
     has_ctx = bool(eng.choose(2, "state-trigger-occurrence"))
@@ -381,7 +381,10 @@ def h_state_active_dec(eng):
                len(nvg) == 1 and nvg[0][0] is names and nvg[0][1] == (new_vars if has_ctx else {}) and len(seen) == 1 and seen[0] is nvg[0][2])
     if has_ctx:
         eng.oblige(f"{U}/post.old-value-available-to-the-expression", len(seen) == 1 and seen[0].get("d.e.old") == "old")
-    eng.oblige(f"{U}/post.active-iff-expression-truthy", (v is True) == (outcome == "true") and (v is False) == (outcome != "true"))
+    # (the decorator manager rejects an occurrence only for the object False: FunctionDecoratorManager.dispatch, C08's contract)
+    ob = eng.oblige(f"{U}/post.active-iff-expression-truthy", (v is True) == (outcome == "true") and (v is False) == (outcome != "true"))
+    if ob.status == "refuted":
+        ob.witness = {"signature": "expression-value-not-a-bool"}
     eng.oblige(f"{U}/post.expression-error-reported-once-and-not-active", (len(handled) == 1) == (outcome == "raises"))
 
 
@@ -552,7 +555,8 @@ def harnesses():
                           tier="quick" if n <= 3 else "thorough"))
     for n in (0, 1, 2, 3):
         hs.append(Harness(f"TimeActiveDecorator.handle_dispatch[{n}]", h_time_active_dec(n), units=[(DT_PY, "TimeActiveDecorator.handle_dispatch")], replay=replay_c07))
-    hs.append(Harness("StateActiveDecorator.handle_dispatch", h_state_active_dec, units=[(DS_PY, "StateActiveDecorator.handle_dispatch")]))
+    hs.append(Harness("StateActiveDecorator.handle_dispatch", h_state_active_dec, units=[(DS_PY, "StateActiveDecorator.handle_dispatch")],
+                      replay=lambda wj: __import__("replay.native", fromlist=["run_native"]).run_native("c07_state_active_truth", wj)))
     hs.append(Harness("hold_off.chain", h_hold_off_chain, units=[(D_PY, "FunctionDecoratorManager.dispatch"), (DT_PY, "TimeActiveDecorator.handle_dispatch")], replay=replay_hold))
     hs.append(Harness("State.notify_var_get", c04.h_notify_var_get, units=[(f"{PKG}/state.py", "State.notify_var_get")]))
     hs.append(Harness("legacy.guards", h_legacy_guards, units=[(T_PY, "TrigInfo.trigger_watch")], replay=replay_c07, max_paths=30000))
